@@ -524,6 +524,37 @@ static inline bool check_wide_scalar(const Operand_& narrow, const Operand_& wid
   return uint32_t(w.reg_type()) == uint32_t(n.reg_type()) + 1u && !w.has_element_type_or_index();
 }
 
+// Checks the wide operand of a long or narrow instruction against its narrow operand like `check_wide_scalar()`, but
+// checks the vector form as well - the wide operand must be a 128-bit vector of elements of the double size (B->H,
+// H->S, S->D, and D->Q, where `1Q` is a Q register without an element type). The wide operand of a pairwise long
+// instruction has the size of the narrow operand instead (8B->4H ... 2S->1D, where `1D` is a D register).
+static inline bool check_wide_operand(const Operand_& narrow, const Operand_& wide, uint32_t inst_flags) noexcept {
+  const Vec& n = narrow.as<Vec>();
+  const Vec& w = wide.as<Vec>();
+
+  if (!n.has_element_type()) {
+    return check_wide_scalar(narrow, wide);
+  }
+
+  uint32_t wide_element_type = uint32_t(n.element_type()) + 1u;
+  RegType wide_reg_type = (inst_flags & InstDB::kInstFlagPair) ? n.reg_type() : RegType::kVec128;
+
+  if (w.reg_type() != wide_reg_type || w.has_element_index()) {
+    return false;
+  }
+
+  // A single element that occupies the whole register.
+  if (wide_element_type > uint32_t(VecElementType::kD)) {
+    return wide_element_type == uint32_t(VecElementType::kD) + 1u && !w.has_element_type();
+  }
+
+  if (wide_element_type == uint32_t(VecElementType::kD) && wide_reg_type == RegType::kVec64 && !w.has_element_type()) {
+    return true;
+  }
+
+  return uint32_t(w.element_type()) == wide_element_type;
+}
+
 // Memory must be either:
 // 1. Absolute address, which will be converted to relative.
 // 2. Relative displacement (Label).
@@ -3737,8 +3768,12 @@ Case_BaseLdurStur:
         if (!size_op.is_valid())
           goto InvalidInstruction;
 
-        // The size comes from the destination of a narrowing instruction, so the source has to be checked against it.
-        if ((inst_flags & InstDB::kInstFlagNarrow) && !check_wide_scalar(o0, o1))
+        // The size comes from the destination of a narrowing instruction and from the source of a long instruction,
+        // so the other operand has to be checked against it.
+        if ((inst_flags & InstDB::kInstFlagNarrow) && !check_wide_operand(o0, o1, inst_flags))
+          goto InvalidInstruction;
+
+        if ((inst_flags & InstDB::kInstFlagLong) && !check_wide_operand(o1, o0, inst_flags))
           goto InvalidInstruction;
 
         opcode.reset(op_data.opcode());
